@@ -5,7 +5,9 @@ S=$1; P=${S%%-*}
 WT=/tmp/seedrun/$S
 rm -rf $WT; mkdir -p /tmp/seedrun /tmp/seedrun/out; git -C /repo worktree prune
 git -C /repo worktree add --detach $WT HEAD -q 2>/dev/null || { echo "$S worktree-failed"; exit 0; }
-if ! git -C $WT apply /verif/seeded/$S/patch.diff 2>/tmp/seedrun/out/$S.apply; then
+PATCH=/verif/seeded/$S/patch.diff
+[ -f /verif/seeded/$S/patch_rebased_on_fixed_tree.diff ] && PATCH=/verif/seeded/$S/patch_rebased_on_fixed_tree.diff
+if ! git -C $WT apply $PATCH 2>/tmp/seedrun/out/$S.apply; then
   echo "$S patch-does-not-apply"; git -C /repo worktree remove --force $WT; exit 0; fi
 cd /verif
 # separate evidence/replay dirs are not needed: the check writes evidence/<P>.json; run sequentially per property
